@@ -219,6 +219,14 @@ Theorem C13_scenario_file_panic_only_if_huge :
 Proof. exact scenario_weights_panic. Qed.
 Print Assumptions C13_scenario_file_panic_only_if_huge.
 
+(* the two parsers agree on every weight list, and the request list of a scenario never panics
+   whatever the format of the description *)
+Theorem C13_scenario_formats_agree :
+  forall f g ws known reqs, f <> FOther -> g <> FOther ->
+    scenario_weights f ws = scenario_weights g ws /\ scenario_requests f known reqs <> VPanic.
+Proof. intros. split; [apply scenario_formats_agree; assumption|apply scenario_requests_no_panic]. Qed.
+Print Assumptions C13_scenario_formats_agree.
+
 (* the validation is what keeps SpreadNames / decodeAmmo safe: without it the statement is false
    (weights -3 and 1: total -2, makeslice panics) *)
 Theorem C13_unvalidated_weights_refuted :
